@@ -232,6 +232,11 @@ def leaves(t, conds=(), _known=None):
         k2.update(_split(nc))
         yield from leaves(t[3], conds + (nc,), k2)
     else:
+        # a condition taken early may be refuted by the ones taken after it (a disjunction whose every alternative was
+        # excluded later): such a path is infeasible
+        for c in conds:
+            if T.is_op(c, 'OR') and T.assume(c, known - {c}) == T.FALSE:
+                return
         yield conds, t
 
 
